@@ -39,6 +39,13 @@
   of that role that has not ended (nothing if there is none, or if the roster does not hold it). It names no environment for
   the frame clause of Spec.C04: the environment the task belongs to has to be exactly as before.
 
+  Role outcome `nohost` (LAUNCH): while the environment was created the simulated master's OFFER for the role's host carried
+  no hostname. In the model that is `SettleOracle.blank` (the hosts of the environment's `nohost` roles): every task of the
+  environment placed there is launched, comes up, and cannot be locked — acquireTasks fails in its own tail and the failure
+  tail of the creation finds no task of the environment (`Own.acquireUnlocked`). Nothing of it is killed in the round of the
+  creation, so whether the core had processed a task's TASK_RUNNING by the time its roster entry is swept (`LaunchOut.active`:
+  the sweep sends a KILL only to a task it believes ACTIVE) is read off the LATER snapshots of the scenario (`RoundObs.killedLater`).
+
   The model replayed is the code as it is (`Own.codeCfg`, the default of `Own.init`):
   it cannot crash at a complete claim, its teardown names the hook tasks of all
   weights, and the oracle of the rendezvous race (`late`, still passed when a call was
@@ -164,6 +171,7 @@ structure RoundObs where
   snap : Option SExp            -- none = crashed (or wedged)
   hk : List (Nat × Nat × Nat)
   wedged : Bool := false        -- no snapshot: the core's goroutine dump showed the environment manager's mutex deadlocked
+  killedLater : List String := []   -- names of the tasks a KILL call named according to this or a LATER snapshot of the scenario
   deriving Repr, Inhabited
 
 partial def parseRes : SExp → Option ResObs
@@ -190,9 +198,25 @@ def parseRound : SExp → Option RoundObs
     pure { results := ← rs.mapM? parseRes, snap := sn, hk := hk, wedged := wd }
   | _ => none
 
+/-- The tasks a KILL call named according to the snapshot. -/
+def killedNames (snap : Option SExp) : List String :=
+  match snap with
+  | some (.list [_, _, _, .list mts, _]) =>
+    mts.filterMap (fun
+      | .list [.atom m, _, kl] => if (kl.bool?).getD false then some m else none
+      | _ => none)
+  | _ => []
+
+/-- Every round learns which tasks were named by a KILL call in its own or a later snapshot. -/
+def withKilledLater : List RoundObs → List RoundObs
+  | [] => []
+  | r :: rest =>
+    let rest' := withKilledLater rest
+    { r with killedLater := killedNames r.snap ++ (match rest' with | r' :: _ => r'.killedLater | [] => []) } :: rest'
+
 def parseObs (s : String) : Option (List RoundObs) :=
   match SExp.parse s with
-  | some (.list rs) => rs.mapM? parseRound
+  | some (.list rs) => (rs.mapM? parseRound).map withKilledLater
   | _ => none
 
 /-! ### names and rendering -/
@@ -334,6 +358,10 @@ def lostInCreation (sc : Scenario) (ops : List OpIn) (k : Nat) : List (Host × B
 def createdHere (ops : List OpIn) (k : Nat) : Bool :=
   ops.any (fun | .new k' => k' == k | _ => false)
 
+/-- The hosts whose OFFER carried no hostname while environment `e` was created (LAUNCH `nohost` of a role placed there). -/
+def blankHostsOf (e : EnvIn) : List Nat :=
+  dedup ((e.roles.filter (fun r => r.kind != .call && r.launch == "nohost")).map (·.host))
+
 def settleOracle (sc : Scenario) (k : Nat) (ro : RoundObs) (late : Bool) (lost : List (Host × Bool) := []) : SettleOracle :=
   match sc.envs[k]? with
   | none => {}
@@ -343,7 +371,10 @@ def settleOracle (sc : Scenario) (k : Nat) (ro : RoundObs) (late : Bool) (lost :
         some (p.2, match p.1.launch with
           | "die" => { mesos := .terminal, active := false }
           | "slow" => { mesos := .staging, active := false }
-          | _ => { mesos := .running, active := killedInSnap ro.snap s!"{k}.{p.2}" })),
+          -- (a deployment that fails in acquireTasks' lock loop kills nothing in its own round: see `killedLater`)
+          | _ => { mesos := .running, active := if (blankHostsOf e).isEmpty then killedInSnap ro.snap s!"{k}.{p.2}"
+                                                else ro.killedLater.contains s!"{k}.{p.2}" })),
+      blank := blankHostsOf e,
       cfgFails := (e.roles.zipIdx).filterMap (fun p =>
         match p.1.cfg with
         | "stay" => some (p.2, false)
@@ -555,7 +586,9 @@ def destroyPieces (sc : Scenario) (k : Nat) (f a kp : Bool) (ov : String) (wedge
          if wedge then ({ l with skip := true }, wedgeTeardowns s k, .hang) else
          match lateAttempt s k (envTaskIds s k) f kp (orc s) with
          | some r => ({ l with skip := true }, r.1, r.2.1)
-         | none => (l, s, .noop) },
+         -- the first attempt answered an error and is retried with force — on the state it LEFT (`tac_attempts`): a teardown that
+         -- ran to completion and still returned an error (a failing hook at the last weight) has deleted the environment
+         | none => (l, (teardown s k f (orc s).late1 (orc s).hookFails).1, .noop) },
      { run := fun l s => if l.skip then (l, s, .noop) else if s.crashed then (l, s, .crash) else
          let r := lateRetry s k (envTaskIds s k) kp (orc s)
          (l, r.1, r.2.1) }]
